@@ -12,6 +12,7 @@ import (
 	"reduction.dev/reduction/connectors/kinesis/kinesispb"
 	"reduction.dev/reduction/proto/snapshotpb"
 	"reduction.dev/reduction/proto/workerpb"
+	"reduction.dev/reduction/util/verifhook"
 )
 
 var (
@@ -111,6 +112,7 @@ func (s *SourceSplitter) Start(ckpt *snapshotpb.SourceCheckpoint) error {
 
 func (s *SourceSplitter) processShardAssignment(ctx context.Context) {
 	for {
+		verifhook.Point("kinesis.splitter.loop", s)
 		select {
 		case <-ctx.Done():
 			return
